@@ -74,7 +74,13 @@ def run(tier="quick", seed=0, arg=None):
         texts.append(f"{a} and {b}" if rng.chance(1, 2) else f"{a} or {b}")
     texts += ['python_version >= "3.10"', 'python_version >= "3.10.0"', 'python_full_version >= "3.10"', 'python_full_version >= "3.10.0"',
               '"linux" in sys_platform', 'sys_platform in "linux"', '"3.8" < python_version', 'python_version > "3.8"',
-              'os_name == "a" or os_name == "b"', 'os_name == "b" or os_name == "a"', 'os_name != "a" and os_name != "b"', ""]
+              'os_name == "a" or os_name == "b"', 'os_name == "b" or os_name == "a"', 'os_name != "a" and os_name != "b"', "",
+              # permuted compounds (top level and nested): any notion of equality that identifies them must hash them alike
+              'os_name == "nt" or sys_platform == "linux"', 'sys_platform == "linux" or os_name == "nt"',
+              'os_name == "nt" and sys_platform == "linux"', 'sys_platform == "linux" and os_name == "nt"',
+              'os_name == "nt" or sys_platform == "linux" or platform_machine == "x86"', 'platform_machine == "x86" or os_name == "nt" or sys_platform == "linux"',
+              '(os_name == "nt" or sys_platform == "linux") and platform_machine == "x86" or implementation_name == "pypy"',
+              '(sys_platform == "linux" or os_name == "nt") and platform_machine == "x86" or implementation_name == "pypy"']
     ms = []
     for t in texts:
         try:
